@@ -59,6 +59,13 @@ Definition mh_step (g : guard) (s : Q) (st : state) (xi : vec) (logu : ext) : st
   let ls := logd xs in
   if accept g logu (ext_sub ls (sld st)) ls then (mkSt xs ls (sgr st), true) else (st, false).
 
+(* per-component scale (scale given as an array):  x* = x + scales .* xi *)
+Definition mh_prop_v (scales x xi : vec) : vec := vadd x (vmul scales xi).
+Definition mh_step_v (g : guard) (scales : vec) (st : state) (xi : vec) (logu : ext) : state * bool :=
+  let xs := mh_prop_v scales (sx st) xi in
+  let ls := logd xs in
+  if accept g logu (ext_sub ls (sld st)) ls then (mkSt xs ls (sgr st), true) else (st, false).
+
 (* ---- component-wise MH: all components proposed at once from N(x, diag(scale^2)), then
         accepted/rejected one coordinate after the other, each against the running point ------ *)
 Definition cw_prop (scales x z : vec) : vec := vadd x (vmul scales z).
@@ -231,6 +238,7 @@ Definition consumes (k : nat) (legacy : bool) (dim : nat) : list rk :=
   | 1%nat => Knormal :: repeat Krand dim           (* CWMH *)
   | 2%nat => [Krandn; Krand]                       (* pCN  *)
   | 3%nat => if legacy then [Knormal; Kuniform] else [Knormal; Krand]   (* MALA *)
+  | 5%nat => [Knormal; Krand]                      (* pCN with a cuqi Normal (independent components) prior *)
   | _ => [Knormal]                                 (* ULA  *)
   end.
 
@@ -241,6 +249,12 @@ Definition check_mh (tol : Q) (T : target) (g : guard) (s : Q) (st : state) (xi 
   Bool.eqb a obs_acc && st_close tol obs st' && ql_close tol obs_star (mh_prop s (sx st) xi)
   && rkl_eqb log (consumes 0 legacy (length (sx st))).
 
+Definition check_mh_v (tol : Q) (T : target) (g : guard) (scales : vec) (st : state) (xi : vec) (logu : ext)
+  (obs_star : vec) (obs : state) (obs_acc : bool) (log : list rk) (legacy : bool) : bool :=
+  let '(st', a) := mh_step_v (t_logd T) g scales st xi logu in
+  Bool.eqb a obs_acc && st_close tol obs st' && ql_close tol obs_star (mh_prop_v scales (sx st) xi)
+  && Nat.eqb (length scales) (length (sx st)) && rkl_eqb log (consumes 0 legacy (length (sx st))).
+
 (* loc/std: the arguments the proposal distribution was sampled with *)
 Definition check_cwmh (tol : Q) (T : target) (g : guard) (scales : vec) (st : state) (z : vec) (logus : list ext)
   (loc std : vec) (obs : state) (obs_acc : list bool) (log : list rk) (legacy : bool) : bool :=
@@ -249,11 +263,11 @@ Definition check_cwmh (tol : Q) (T : target) (g : guard) (scales : vec) (st : st
   && rkl_eqb log (consumes 1 legacy (length (sx st))).
 
 Definition check_pcn (tol : Q) (T : target) (centered : bool) (g : guard) (a s : Q) (m : vec) (st : state)
-  (xi : vec) (logu : ext) (obs_star : vec) (obs : state) (obs_acc : bool) (log : list rk) (legacy : bool) : bool :=
+  (xi : vec) (logu : ext) (obs_star : vec) (obs : state) (obs_acc : bool) (log : list rk) (legacy : bool) (ck : nat) : bool :=
   let '(st', b) := pcn_step (t_logd T) centered g a s m st xi logu in
   Bool.eqb b obs_acc && st_close tol obs st' && ql_close tol obs_star (pcn_prop centered a s m (sx st) xi)
   && q_close tol9 (a * a + s * s) 1 && Qle_bool 0 a
-  && rkl_eqb log (consumes 2 legacy (length (sx st))).
+  && rkl_eqb log (consumes ck legacy (length (sx st))).
 
 (* std: the standard deviation the noise was drawn with (must be sqrt(scale)) *)
 Definition check_mala (tol : Q) (T : target) (g : guard) (s : Q) (st : state) (xi : vec) (logu : ext)
